@@ -135,6 +135,7 @@ int main(int argc, char** argv) {
             if ((!strcmp(n, "publish_ok") || !strcmp(n, "publish_relaxed") || !strcmp(n, "publish_early") || !strcmp(n, "fence_publish") || !strcmp(n, "fence_missing")) && o != -1 && o != 42) t2.wrong_obs++;
             if (!strcmp(n, "rwlock") && o != 0 && o != 40) t2.wrong_obs++;
             if (!strcmp(n, "condvar") && o != 3) t2.wrong_obs++;
+            if (!strcmp(n, "sem_spin") && o != 42) t2.wrong_obs++;
             if (!strcmp(n, "spin") && o != 9) t2.wrong_obs++;
             if (!strcmp(n, "atomic_wait") && o != 9) t2.wrong_obs++;
             if (!strcmp(n, "cond_wait_for") && o != 3) t2.wrong_obs++;
@@ -153,6 +154,7 @@ int main(int argc, char** argv) {
             if (!strcmp(n, "spawn_join") && t == 0 && o != 1) t2.wrong_obs++;
           }
           if (!strcmp(n, "mutex") && shm->counter != 5 * nt) t2.lost_update++;
+          if (!strcmp(n, "sem_spin") && shm->counter != 3 * nt) t2.lost_update++;
           if (!strcmp(n, "scoped_lock") && shm->counter != 3 * nt) t2.lost_update++;
           if (!strcmp(n, "tagged_cas") && shm->counter != 4 * nt) t2.lost_update++;
           if (!strcmp(n, "spawn_join") && shm->counter != 10 + nt) t2.lost_update++;
